@@ -109,6 +109,16 @@ func c15Directed(e func(string)) {
 	}
 	// the worker parked inside GetChannel()'s notifyWorkers (read lock held, before the wake-up send): the queue's
 	// Close has to wait for it
+	// Invoke / InvokeWithTimeout (DefaultInvokable on the pool): after the Close returned nothing may run
+	for _, qc := range []int{1, 0} {
+		h := fmt.Sprintf("pool c=4 b=4 max=1 qclose=%d: ", qc)
+		e(h + "A=invoke:50 ; A=sched:1 ; C=close ; A=invoke:51 ; A=invoket:3 ; B=invoke:52 ; A=sched:4 ; A=isclosed")
+		e(h + "A=invoke:53@pool.schedule.afterClosedCheck ; C=close ; A> ; A=invoke:54")
+		e(h + "C=close@pool.close.afterFlag ; A=invoke:55 ; A=invoket:5 ; C> ; A=invoke:56")
+	}
+	// the finishing coroutine is the caller side of an in-flight request issued by another goroutine
+	e("corcaller mode=after")
+	e("corcaller mode=parked")
 	e("pool c=4 b=4 max=1 qclose=1: I+bcq.notify.beforeSend ; I?bcq.notify.beforeSend ; C=close! ; I>bcq.notify.beforeSend ; C> ; A=sched:1")
 	e("pool c=4 b=4 max=1 qclose=1: I+pool.worker.afterClosedCheck ; I?pool.worker.afterClosedCheck ; C=close@bcq.close.afterFlag ; I>pool.worker.afterClosedCheck ; A=sched:1 ; C>")
 	e("pool c=4 b=4 max=1 qclose=1: I+pool.worker.afterClosedCheck ; I?pool.worker.afterClosedCheck ; C=close@bcq.close.afterLoadCh ; I>pool.worker.afterClosedCheck ; C>")
